@@ -52,6 +52,11 @@ Ancestors(c) ==
       [] c = "ZeroDivisionError" -> {"ArithmeticError", "Exception", "BaseException", "object"}
       [] c = "NameError"         -> {"Exception", "BaseException", "object"}
       [] c = "Exception"         -> {"BaseException", "object"}
+      [] c = "OSError"           -> {"Exception", "BaseException", "object"}
+      \* classes with several direct bases: every base of every base counts (match_base walks __bases__)
+      [] c = "MultiError"        -> {"LookupError", "ValueError", "Exception", "BaseException", "object"}
+      [] c = "UnsupportedOperation" -> {"OSError", "ValueError", "Exception", "BaseException", "object"}
+      [] c = "DeepMultiError"    -> {"MultiError", "LookupError", "ValueError", "Exception", "BaseException", "object"}
       [] OTHER                   -> {"Exception", "BaseException", "object"}
 
 Raised(cls, msg) == [k |-> "raise", cls |-> cls, msg |-> msg]
